@@ -2,6 +2,10 @@
 #include "common.hpp"
 #include "computerPlayer.hpp"
 #include "dtm_oracle.hpp"
+#include "session.hpp"
+#include "evaluate.hpp"
+#include "textio.hpp"
+#include "posgen.hpp"
 #include <sys/personality.h>
 #include <sys/wait.h>
 #include <sys/stat.h>
@@ -151,6 +155,20 @@ int main(int argc, char** argv) {
                 printf("%s: win %ld (max %d plies = mate in %d) loss %ld (max %d plies) draw %ld illegal %ld\n", k.c_str(), win, maxW,
                        (maxW + 1) / 2, loss, maxL, draw, ill);
             }
+        }
+        return 0;
+    }
+    if (mode == "evaldump" && argc >= 4) { // evaldump <net> <seed> [n]: print static evaluations of generated positions
+        sess::selectNet(argv[2]);
+        Rng r(strtoull(argv[3], nullptr, 10), 1);
+        int n = argc > 4 ? atoi(argv[4]) : 20;
+        auto et = Evaluate::getEvalHashTables();
+        for (int i = 0; i < n; i++) {
+            pg::GenPos gp;
+            pg::anyPosition(r, gp);
+            Evaluate ev(*et);
+            ev.connectPosition(gp.pos);
+            printf("%d %s\n", ev.evalPos(), TextIO::toFEN(gp.pos).c_str());
         }
         return 0;
     }
